@@ -328,7 +328,8 @@ def behaviours_from_corpus(corpus, max_behaviours=None, rng=None, need=None, str
                 groups.setdefault(stratum(r["ops"]), []).append(r)
             for g in groups.values():
                 rng.shuffle(g)
-            picked, order = [], sorted(groups)
+            picked, order = [], sorted(groups, key=repr)
+            rng.shuffle(order)       # more classes than picks: which classes are served must not depend on their names
             while len(picked) < max_behaviours and any(groups.values()):
                 for k in order:
                     if groups[k] and len(picked) < max_behaviours:
